@@ -15,16 +15,6 @@ var (
 )
 
 func log(level Severity, msg string, tracer *ContextTracer) {
-	if !started.IsSet() {
-		// a bit resource intense, but keeps logs before logging started.
-		// TODO: create option to disable logging
-		go func() {
-			<-startedSignal
-			log(level, msg, tracer)
-		}()
-		return
-	}
-
 	// get time
 	now := time.Now()
 
@@ -41,6 +31,22 @@ func log(level Severity, msg string, tracer *ContextTracer) {
 		}
 	}
 
+	if !started.IsSet() {
+		// a bit resource intense, but keeps logs before logging started.
+		// TODO: create option to disable logging
+		go func() {
+			<-startedSignal
+			submit(level, msg, tracer, now, file, line)
+		}()
+		return
+	}
+
+	submit(level, msg, tracer, now, file, line)
+}
+
+// submit checks a line with the given time and origin against the log levels
+// and sends it to processing.
+func submit(level Severity, msg string, tracer *ContextTracer, now time.Time, file string, line int) {
 	// check if level is enabled for file or generally
 	if pkgLevelsActive.IsSet() {
 		pathSegments := strings.Split(file, "/")
